@@ -87,6 +87,34 @@ class Spy:
         self.log.append(('close',))
         return self.raw.close()
 
+    def __getattr__(self, name):
+        # whatever else the wrapped object offers (read1, readinto, fileno ...) is offered too
+        attr = getattr(self.raw, name)
+        if callable(attr):
+            def call(*a, **kw):
+                rv = attr(*a, **kw)
+                self.log.append((name,) + a + ((len(rv),) if isinstance(rv, (bytes, bytearray)) else ()))
+                return rv
+            return call
+        return attr
+
+
+class ForwardOnly:
+    """A reader that can only be read forwards (tell() and read(), no seek()): the shape of the HTTP
+    response wrapper the media inspector hands to BufferedReader."""
+
+    def __init__(self, data: bytes) -> None:
+        self._bio = io.BytesIO(data)
+        self.log: list[tuple] = []
+
+    def tell(self):
+        return self._bio.tell()
+
+    def read(self, n=-1):
+        rv = self._bio.read(n)
+        self.log.append(('read', n, len(rv)))
+        return rv
+
     @property
     def closed(self):
         return self.raw.closed
@@ -100,7 +128,36 @@ def make_content(rng, length: int, style: int) -> bytes:
     return body[:length]
 
 
+def gen_forward_case(rng) -> dict:
+    """a window at offset 0 over a forward-only reader: data is consumed front to back; going back is
+    allowed to anything already read (nothing is evicted), going forward only by reading"""
+    flen = rng.choice([0, 1, 7, 64, 100, 1000, 4096, rng.randrange(0, 6000)])
+    bs = rng.choice([1, 3, 8, 16, 64, 100, 1000, 4096])
+    size = rng.choice([flen, flen, rng.randrange(0, flen + 1)])
+    ops, frontier, pos = [], 0, 0
+    for _ in range(rng.randrange(1, 30)):
+        k = rng.random()
+        n = rng.choice([0, 1, 2, bs - 1, bs, bs + 1, 2 * bs + 1, rng.randrange(0, max(1, size) + 2)])
+        if k < 0.45:
+            ops.append(['read', n])
+            pos = min(size, pos + n)
+        elif k < 0.65:
+            ops.append(['peek', max(1, n)])
+            frontier = max(frontier, min(size, pos + max(1, n)))
+        elif k < 0.75:
+            ops.append(['tell'])
+        else:
+            back = rng.randrange(0, frontier + 1)
+            ops.append(['seek', back, 0])
+            pos = back
+        frontier = max(frontier, pos)
+    return {'flen': flen, 'style': 1, 'content_seed': rng.randrange(2**32), 'offset': 0, 'size': size,
+            'buffersize': bs, 'max_buffers': 100000, 'underlying': 'forward', 'ops': ops, 'pre_position': 'start'}
+
+
 def gen_case(rng, big: bool) -> dict:
+    if not big and rng.random() < 0.08:
+        return gen_forward_case(rng)
     if big:
         flen = rng.randrange(40000, 200000)
         bs = 16384
@@ -169,15 +226,19 @@ def run_case(case: dict, res: ShardResult, BufferedReader, tmpdir: str, rng_mod)
         path = os.path.join(tmpdir, 'c20.bin')
         with open(path, 'wb') as f:
             f.write(content)
-        fh = open(path, 'rb', buffering=rng_mod.Random(case['content_seed']).choice([0, 16, 4096]))
+        fh = open(path, 'rb', buffering=rng_mod.Random(case['content_seed']).choice([0, 16, 4096, -1]))
         raw = fh
+    elif case['underlying'] == 'forward':
+        raw = ForwardOnly(content)
     else:
         raw = io.BytesIO(content)
     if case['pre_position'] == 'offset':
         raw.seek(offset)
     elif case['pre_position'] == 'random' and case['flen']:
         raw.seek(crng.randrange(case['flen']))
-    spy = Spy(raw)
+    spy = raw if case['underlying'] == 'forward' else Spy(raw)
+    if case['underlying'] == 'forward':
+        res.count('cases.forward_only_reader')
     rd = BufferedReader(spy, buffersize=bs, offset=offset, size=size, max_buffers=case['max_buffers'])
     nontrivial = False
     evicted = False
